@@ -82,6 +82,15 @@ type MonBackend struct {
 	LateGate chan struct{}
 	// CloseAt: call Inner.Close at the N-th hook call overall (0 = never).
 	CloseAt int
+	// CloseAfterAuth: call Inner.Close synchronously when the K-th Authenticate
+	// call has returned from the inner backend (the client is not registered yet,
+	// so Close does not wait for it); its Setup call comes after the shutdown.
+	CloseAfterAuth int
+	// SetupAfterClose lists clients whose inner Setup call began after a Close
+	// fired by this monitor had returned and nevertheless succeeded.
+	SetupAfterClose []string
+	closeReturned   bool
+	authReturns     int
 
 	mu      sync.Mutex
 	clients map[*broker.Client]*ClientInfo
@@ -245,7 +254,12 @@ func (m *MonBackend) enter(hook string, c *broker.Client) (before, after error) 
 	m.Ev.Add(name, "hook:"+hook+":call", nil, "")
 	if closeNow {
 		m.Ev.Add(name, "backend-close", nil, "MemoryBackend.Close fired at hook call "+fmt.Sprint(n))
-		go m.Inner.Close(5 * time.Second)
+		go func() {
+			m.Inner.Close(5 * time.Second)
+			m.mu.Lock()
+			m.closeReturned = true
+			m.mu.Unlock()
+		}()
 		runtime.Gosched()
 	}
 	if m.OnHook != nil {
@@ -278,6 +292,18 @@ func (m *MonBackend) Authenticate(c *broker.Client, user, password string) (bool
 	if err == nil && a != nil {
 		err = a
 	}
+	m.mu.Lock()
+	m.authReturns++
+	closeNow := m.CloseAfterAuth > 0 && m.authReturns == m.CloseAfterAuth
+	m.mu.Unlock()
+	if closeNow {
+		m.Ev.Add(m.Info(c).Name, "backend-close", nil, "MemoryBackend.Close called between this client's Authenticate and Setup")
+		m.Inner.Close(5 * time.Second)
+		m.mu.Lock()
+		m.closeReturned = true
+		m.mu.Unlock()
+		m.Ev.Add(m.Info(c).Name, "backend-close:return", nil, "")
+	}
 	m.leave("Authenticate", c, err)
 	return ok, err
 }
@@ -292,10 +318,16 @@ func (m *MonBackend) Setup(c *broker.Client, id string, clean bool) (broker.Sess
 		m.leave("Setup", c, b)
 		return nil, false, b
 	}
+	m.mu.Lock()
+	closedBefore := m.closeReturned
+	m.mu.Unlock()
 	s, resumed, err := m.Inner.Setup(c, id, clean)
 	if err == nil {
 		m.mu.Lock()
 		ci.SetupOK, ci.Resumed, ci.Session = true, resumed, s
+		if closedBefore {
+			m.SetupAfterClose = append(m.SetupAfterClose, ci.Name)
+		}
 		m.mu.Unlock()
 		if m.OnSetupReturn != nil {
 			m.OnSetupReturn(ci)
